@@ -80,12 +80,24 @@ func (r *run) restart(variant int) {
 	if safe := n.mgr.SafeHeight(); start < safe {
 		start = safe + 1
 	}
+	// InitCheckpoint's start rule (SafeHeight()+1) never replays the block at
+	// CRVotingStartHeight when no checkpoint was loaded. When that block carried
+	// anything the committee records, every later difference is a consequence of
+	// that one defect: it gets one signature of its own instead of one per field.
+	skippedFirst := false
+	if vs := n.cfg.CRConfiguration.CRVotingStartHeight; restoredHeight == 0 && start == vs+1 && vs >= 1 && int(vs) <= len(r.chain) {
+		skippedFirst = r.blockMattersToCommittee(r.chain[vs-1])
+	}
 	if msg := r.replay(n, start, tip); msg != "" {
 		// the restored node cannot even replay its own chain: it certainly does
 		// not reach the state of the node that never restarted
 		r.faulted = true
 		r.c.Fault(kind)
-		r.viol("C23", "restart", "C23/restart/panic-during-replay@"+map[bool]string{true: "restart-from-file", false: "restart"}[fromFile && restoredHeight > 0],
+		ctx := map[bool]string{true: "restart-from-file", false: "restart"}[fromFile && restoredHeight > 0]
+		if skippedFirst {
+			ctx = "first-cr-block-not-replayed"
+		}
+		r.viol("C23", "restart", "C23/restart/panic-during-replay@"+ctx,
 			"%s at h=%d (checkpoint height %d, replay from %d as InitCheckpoint does: SafeHeight()+1): replay panicked: %s", kind, tip, restoredHeight, start, msg)
 		r.halt = true
 		n.close()
@@ -107,6 +119,12 @@ func (r *run) restart(variant int) {
 		r.c.Probe("restart-without-checkpoint-file")
 	}
 	r.c.Logf("%s at h=%d restored=%d replay-from=%d", kind, tip, restoredHeight, start)
+	r.collapseSig = ""
+	if skippedFirst {
+		r.faultCtx = "first-cr-block-not-replayed"
+		r.collapseSig = "C23/restart/diverged@first-cr-block-not-replayed"
+		r.c.Probe("restart-skipped-first-cr-block-with-content")
+	}
 
 	r.twinProp, r.twinOracle = "C23", "restart"
 	if r.twin == nil {
@@ -121,6 +139,23 @@ func (r *run) restart(variant int) {
 		old.close()
 	}
 	r.compareTwin("after-restart")
+}
+
+// blockMattersToCommittee: the block has a CR transaction or pays one of the
+// CR addresses.
+func (r *run) blockMattersToCommittee(br *blockRec) bool {
+	cfg := r.cfg()
+	for i, tx := range br.b.Transactions {
+		if i > 0 {
+			return true // every non-coinbase transaction the harness builds is CR related
+		}
+		for _, o := range tx.Outputs() {
+			if o.ProgramHash.IsEqual(*cfg.CRConfiguration.CRAssetsProgramHash) || o.ProgramHash.IsEqual(*cfg.CRConfiguration.CRExpensesProgramHash) {
+				return true
+			}
+		}
+	}
+	return false
 }
 
 // replay feeds the stored blocks start..tip to a restored node; a panic of the
